@@ -12,7 +12,12 @@ import warnings
 src, mode = sys.argv[1], sys.argv[2]
 logging.disable(logging.CRITICAL)
 warnings.filterwarnings("ignore")
-os.chdir(tempfile.mkdtemp(prefix="prochist-"))
+_wd = tempfile.mkdtemp(prefix="prochist-")      # opfython opens opfython.log in the cwd
+os.chdir(_wd)
+import atexit  # noqa: E402
+import shutil  # noqa: E402
+
+atexit.register(lambda: (os.chdir("/"), shutil.rmtree(_wd, ignore_errors=True)))
 sys.path.insert(0, src)
 import numpy as np  # noqa: E402
 
